@@ -1,16 +1,426 @@
-import BqVerif.Proofs.GatesBase
+import BqVerif.Proofs.GatesUnitary
+import BqVerif.Proofs.GatesGrad
+import BqVerif.Proofs.GatesWitness
+import BqVerif.Model.GateShapeTable
+import BqVerif.Generated.GateShapes
+/-!
+# C18 — every library gate obeys the gate contract for all parameters
+
+Carrier: an arbitrary commutative *-ring `R` with constants `K` (`i² = -1`, `ī = -i`,
+`½ + ½ = 1`, `(1/√2)² = ½`, `½` and `1/√2` real) — `Consts.Valid` — and parameters given as
+real points of the unit circle — `Ang.Valid` (`c² + s² = 1`, `c̄ = c`, `s̄ = s`).  `ℂ` with real
+angles is an instance (`GatesWitness.lean`), so every statement below holds for all real
+parameter vectors.  `toM n f` is the `n × n` Mathlib matrix of a model matrix `f`;
+`IsUnitary n f` is `toM n f * (toM n f)ᴴ = 1`.
+
+* `C18_unitary_<g>` : the model matrix of family `g` is unitary of the advertised dimension.
+* `C18_grad_<g>_<k>` : the `k`-th gradient matrix is the first-order Taylor coefficient of the
+  unitary in parameter `k`: displacing the angle by `rate·ε`, `ε² = 0`, changes `U` by
+  `ε • grad_k` (in every commutative ring — dual numbers included — hence the formal
+  derivative; `rate` = ½ for half-angle parameters, `π/2`, `π` for PhasedXZ).
+* `C18_inverse_<g>` : inverse gate at the inverse parameters times the gate is `1`.
+* composed gates: generic in the inner gate (section "Composed gates").
+* `C18_shapes_agree` : the regenerated shape table of the live classes equals the model's.
+-/
 namespace BqVerif.C18
 open BqVerif.Gates Matrix
 
 variable {R : Type} [CommRing R] [StarRing R]
 
-theorem C18_unitary_u3 (K : Consts R) (hK : K.Valid) (t p l : Ang R)
-    (ht : t.Valid) (hp : p.Valid) (hl : l.Valid) : IsUnitary 2 (u3 K t p l) := by
-  unfold IsUnitary
-  ext i j
-  fin_cases i <;> fin_cases j <;>
-    simp [toM, u3, Matrix.mul_apply, Fin.sum_univ_two, Ang.e, ht.rc, ht.rs, hp.rc, hp.rs,
-      hl.rc, hl.rs, hK.si]
-  all_goals sorry
+/-! ## Families (generated block: one restatement per lemma of Proofs/GatesUnitary, GatesGrad) -/
+-- BEGIN GENERATED FAMILIES
+theorem C18_unitary_u3 (K : Consts R) (hK : K.Valid) (t p l : Ang R) (ht : t.Valid) (hp : p.Valid) (hl : l.Valid) : IsUnitary 2 (u3 K t p l) :=
+  unitary_u3 K hK t p l ht hp hl
+example : ∃ (K : Consts ℂ) (t p l : Ang ℂ), K.Valid ∧ t.Valid ∧ p.Valid ∧ l.Valid := ⟨K0, a0, a0, a0, K0_valid, a0_valid, a0_valid, a0_valid⟩
+
+theorem C18_unitary_u2 (K : Consts R) (hK : K.Valid) (p l : Ang R) (hp : p.Valid) (hl : l.Valid) : IsUnitary 2 (u2 K p l) :=
+  unitary_u2 K hK p l hp hl
+example : ∃ (K : Consts ℂ) (p l : Ang ℂ), K.Valid ∧ p.Valid ∧ l.Valid := ⟨K0, a0, a0, K0_valid, a0_valid, a0_valid⟩
+
+theorem C18_unitary_u1 (K : Consts R) (hK : K.Valid) (t : Ang R) (ht : t.Valid) : IsUnitary 2 (u1 K t) :=
+  unitary_u1 K hK t ht
+example : ∃ (K : Consts ℂ) (t : Ang ℂ), K.Valid ∧ t.Valid := ⟨K0, a0, K0_valid, a0_valid⟩
+
+theorem C18_unitary_rx (K : Consts R) (hK : K.Valid) (t : Ang R) (ht : t.Valid) : IsUnitary 2 (rx K t) :=
+  unitary_rx K hK t ht
+example : ∃ (K : Consts ℂ) (t : Ang ℂ), K.Valid ∧ t.Valid := ⟨K0, a0, K0_valid, a0_valid⟩
+
+theorem C18_unitary_ry (t : Ang R) (ht : t.Valid) : IsUnitary 2 (ry t) :=
+  unitary_ry t ht
+example : ∃ (t : Ang ℂ), t.Valid := ⟨a0, a0_valid⟩
+
+theorem C18_unitary_rz (K : Consts R) (hK : K.Valid) (t : Ang R) (ht : t.Valid) : IsUnitary 2 (rz K t) :=
+  unitary_rz K hK t ht
+example : ∃ (K : Consts ℂ) (t : Ang ℂ), K.Valid ∧ t.Valid := ⟨K0, a0, K0_valid, a0_valid⟩
+
+theorem C18_unitary_u1q (K : Consts R) (hK : K.Valid) (t p : Ang R) (ht : t.Valid) (hp : p.Valid) : IsUnitary 2 (u1q K t p) :=
+  unitary_u1q K hK t p ht hp
+example : ∃ (K : Consts ℂ) (t p : Ang ℂ), K.Valid ∧ t.Valid ∧ p.Valid := ⟨K0, a0, a0, K0_valid, a0_valid, a0_valid⟩
+
+theorem C18_unitary_pxz (K : Consts R) (hK : K.Valid) (a z b : Ang R) (ha : a.Valid) (hz : z.Valid) (hb : b.Valid) : IsUnitary 2 (pxz K a z b) :=
+  unitary_pxz K hK a z b ha hz hb
+example : ∃ (K : Consts ℂ) (a z b : Ang ℂ), K.Valid ∧ a.Valid ∧ z.Valid ∧ b.Valid := ⟨K0, a0, a0, a0, K0_valid, a0_valid, a0_valid, a0_valid⟩
+
+theorem C18_unitary_rxx (K : Consts R) (hK : K.Valid) (t : Ang R) (ht : t.Valid) : IsUnitary 4 (rxx K t) :=
+  unitary_rxx K hK t ht
+example : ∃ (K : Consts ℂ) (t : Ang ℂ), K.Valid ∧ t.Valid := ⟨K0, a0, K0_valid, a0_valid⟩
+
+theorem C18_unitary_ryy (K : Consts R) (hK : K.Valid) (t : Ang R) (ht : t.Valid) : IsUnitary 4 (ryy K t) :=
+  unitary_ryy K hK t ht
+example : ∃ (K : Consts ℂ) (t : Ang ℂ), K.Valid ∧ t.Valid := ⟨K0, a0, K0_valid, a0_valid⟩
+
+theorem C18_unitary_rzz (K : Consts R) (hK : K.Valid) (t : Ang R) (ht : t.Valid) : IsUnitary 4 (rzz K t) :=
+  unitary_rzz K hK t ht
+example : ∃ (K : Consts ℂ) (t : Ang ℂ), K.Valid ∧ t.Valid := ⟨K0, a0, K0_valid, a0_valid⟩
+
+theorem C18_unitary_cp (K : Consts R) (hK : K.Valid) (t : Ang R) (ht : t.Valid) : IsUnitary 4 (cp K t) :=
+  unitary_cp K hK t ht
+example : ∃ (K : Consts ℂ) (t : Ang ℂ), K.Valid ∧ t.Valid := ⟨K0, a0, K0_valid, a0_valid⟩
+
+theorem C18_unitary_crx (K : Consts R) (hK : K.Valid) (t : Ang R) (ht : t.Valid) : IsUnitary 4 (crx K t) :=
+  unitary_crx K hK t ht
+example : ∃ (K : Consts ℂ) (t : Ang ℂ), K.Valid ∧ t.Valid := ⟨K0, a0, K0_valid, a0_valid⟩
+
+theorem C18_unitary_cry (t : Ang R) (ht : t.Valid) : IsUnitary 4 (cry t) :=
+  unitary_cry t ht
+example : ∃ (t : Ang ℂ), t.Valid := ⟨a0, a0_valid⟩
+
+theorem C18_unitary_crz (K : Consts R) (hK : K.Valid) (t : Ang R) (ht : t.Valid) : IsUnitary 4 (crz K t) :=
+  unitary_crz K hK t ht
+example : ∃ (K : Consts ℂ) (t : Ang ℂ), K.Valid ∧ t.Valid := ⟨K0, a0, K0_valid, a0_valid⟩
+
+theorem C18_unitary_cu (K : Consts R) (hK : K.Valid) (t p l g : Ang R) (ht : t.Valid) (hp : p.Valid) (hl : l.Valid) (hg : g.Valid) : IsUnitary 4 (cu K t p l g) :=
+  unitary_cu K hK t p l g ht hp hl hg
+example : ∃ (K : Consts ℂ) (t p l g : Ang ℂ), K.Valid ∧ t.Valid ∧ p.Valid ∧ l.Valid ∧ g.Valid := ⟨K0, a0, a0, a0, a0, K0_valid, a0_valid, a0_valid, a0_valid, a0_valid⟩
+
+theorem C18_unitary_fsim (K : Consts R) (hK : K.Valid) (t p : Ang R) (ht : t.Valid) (hp : p.Valid) : IsUnitary 4 (fsim K t p) :=
+  unitary_fsim K hK t p ht hp
+example : ∃ (K : Consts ℂ) (t p : Ang ℂ), K.Valid ∧ t.Valid ∧ p.Valid := ⟨K0, a0, a0, K0_valid, a0_valid, a0_valid⟩
+
+theorem C18_unitary_ccp (K : Consts R) (hK : K.Valid) (t : Ang R) (ht : t.Valid) : IsUnitary 8 (ccp K t) :=
+  unitary_ccp K hK t ht
+example : ∃ (K : Consts ℂ) (t : Ang ℂ), K.Valid ∧ t.Valid := ⟨K0, a0, K0_valid, a0_valid⟩
+
+theorem C18_unitary_hGate (K : Consts R) (hK : K.Valid) : IsUnitary 2 (hGate K) :=
+  unitary_hGate K hK 
+example : ∃ (K : Consts ℂ), K.Valid := ⟨K0, K0_valid⟩
+
+theorem C18_unitary_h4Gate (K : Consts R) (hK : K.Valid) : IsUnitary 4 (h4Gate K) :=
+  unitary_h4Gate K hK 
+example : ∃ (K : Consts ℂ), K.Valid := ⟨K0, K0_valid⟩
+
+theorem C18_unitary_sx (K : Consts R) (hK : K.Valid) : IsUnitary 2 (sx K) :=
+  unitary_sx K hK 
+example : ∃ (K : Consts ℂ), K.Valid := ⟨K0, K0_valid⟩
+
+theorem C18_unitary_sxdg (K : Consts R) (hK : K.Valid) : IsUnitary 2 (sxdg K) :=
+  unitary_sxdg K hK 
+example : ∃ (K : Consts ℂ), K.Valid := ⟨K0, K0_valid⟩
+
+theorem C18_unitary_ch (K : Consts R) (hK : K.Valid) : IsUnitary 4 (ch K) :=
+  unitary_ch K hK 
+example : ∃ (K : Consts ℂ), K.Valid := ⟨K0, K0_valid⟩
+
+theorem C18_unitary_sqrtISwap (K : Consts R) (hK : K.Valid) : IsUnitary 4 (sqrtISwap K) :=
+  unitary_sqrtISwap K hK 
+example : ∃ (K : Consts ℂ), K.Valid := ⟨K0, K0_valid⟩
+
+theorem C18_unitary_sqrtCNOT (K : Consts R) (hK : K.Valid) : IsUnitary 4 (sqrtCNOT K) :=
+  unitary_sqrtCNOT K hK 
+example : ∃ (K : Consts ℂ), K.Valid := ⟨K0, K0_valid⟩
+
+theorem C18_unitary_ecr (K : Consts R) (hK : K.Valid) : IsUnitary 4 (ecr K) :=
+  unitary_ecr K hK 
+example : ∃ (K : Consts ℂ), K.Valid := ⟨K0, K0_valid⟩
+
+theorem C18_unitary_xxGate (K : Consts R) (hK : K.Valid) : IsUnitary 4 (xxGate K) :=
+  unitary_xxGate K hK 
+example : ∃ (K : Consts ℂ), K.Valid := ⟨K0, K0_valid⟩
+
+theorem C18_unitary_yyGate (K : Consts R) (hK : K.Valid) : IsUnitary 4 (yyGate K) :=
+  unitary_yyGate K hK 
+example : ∃ (K : Consts ℂ), K.Valid := ⟨K0, K0_valid⟩
+
+theorem C18_unitary_zzGate (K : Consts R) (hK : K.Valid) : IsUnitary 4 (zzGate K) :=
+  unitary_zzGate K hK 
+example : ∃ (K : Consts ℂ), K.Valid := ⟨K0, K0_valid⟩
+
+theorem C18_unitary_bGate (K : Consts R) (hK : K.Valid) (a : Ang R) (ha : a.Valid) : IsUnitary 4 (bGate K a) :=
+  unitary_bGate K hK a ha
+example : ∃ (K : Consts ℂ) (a : Ang ℂ), K.Valid ∧ a.Valid := ⟨K0, a0, K0_valid, a0_valid⟩
+
+theorem C18_unitary_xGate : IsUnitary 2 (xGate : M R) :=
+  unitary_xGate 
+
+theorem C18_unitary_yGate (K : Consts R) (hK : K.Valid) : IsUnitary 2 (yGate K) :=
+  unitary_yGate K hK 
+example : ∃ (K : Consts ℂ), K.Valid := ⟨K0, K0_valid⟩
+
+theorem C18_unitary_zGate : IsUnitary 2 (zGate : M R) :=
+  unitary_zGate 
+
+theorem C18_unitary_sGate (K : Consts R) (hK : K.Valid) : IsUnitary 2 (sGate K) :=
+  unitary_sGate K hK 
+example : ∃ (K : Consts ℂ), K.Valid := ⟨K0, K0_valid⟩
+
+theorem C18_unitary_sdgGate (K : Consts R) (hK : K.Valid) : IsUnitary 2 (sdgGate K) :=
+  unitary_sdgGate K hK 
+example : ∃ (K : Consts ℂ), K.Valid := ⟨K0, K0_valid⟩
+
+theorem C18_unitary_tGate (K : Consts R) (hK : K.Valid) : IsUnitary 2 (tGate K) :=
+  unitary_tGate K hK 
+example : ∃ (K : Consts ℂ), K.Valid := ⟨K0, K0_valid⟩
+
+theorem C18_unitary_tdgGate (K : Consts R) (hK : K.Valid) : IsUnitary 2 (tdgGate K) :=
+  unitary_tdgGate K hK 
+example : ∃ (K : Consts ℂ), K.Valid := ⟨K0, K0_valid⟩
+
+theorem C18_unitary_sqrtTGate (K : Consts R) (hK : K.Valid) (a : Ang R) (ha : a.Valid) : IsUnitary 2 (sqrtTGate K a) :=
+  unitary_sqrtTGate K hK a ha
+example : ∃ (K : Consts ℂ) (a : Ang ℂ), K.Valid ∧ a.Valid := ⟨K0, a0, K0_valid, a0_valid⟩
+
+theorem C18_unitary_cxGate : IsUnitary 4 (cxGate : M R) :=
+  unitary_cxGate 
+
+theorem C18_unitary_cyGate (K : Consts R) (hK : K.Valid) : IsUnitary 4 (cyGate K) :=
+  unitary_cyGate K hK 
+example : ∃ (K : Consts ℂ), K.Valid := ⟨K0, K0_valid⟩
+
+theorem C18_unitary_czGate : IsUnitary 4 (czGate : M R) :=
+  unitary_czGate 
+
+theorem C18_unitary_csGate (K : Consts R) (hK : K.Valid) : IsUnitary 4 (csGate K) :=
+  unitary_csGate K hK 
+example : ∃ (K : Consts ℂ), K.Valid := ⟨K0, K0_valid⟩
+
+theorem C18_unitary_ctGate (K : Consts R) (hK : K.Valid) : IsUnitary 4 (ctGate K) :=
+  unitary_ctGate K hK 
+example : ∃ (K : Consts ℂ), K.Valid := ⟨K0, K0_valid⟩
+
+theorem C18_unitary_swapGate : IsUnitary 4 (swapGate : M R) :=
+  unitary_swapGate 
+
+theorem C18_unitary_iswapGate (K : Consts R) (hK : K.Valid) : IsUnitary 4 (iswapGate K) :=
+  unitary_iswapGate K hK 
+example : ∃ (K : Consts ℂ), K.Valid := ⟨K0, K0_valid⟩
+
+theorem C18_unitary_sycamore (K : Consts R) (hK : K.Valid) (a : Ang R) (ha : a.Valid) : IsUnitary 4 (sycamore K a) :=
+  unitary_sycamore K hK a ha
+example : ∃ (K : Consts ℂ) (a : Ang ℂ), K.Valid ∧ a.Valid := ⟨K0, a0, K0_valid, a0_valid⟩
+
+theorem C18_unitary_ccxGate : IsUnitary 8 (ccxGate : M R) :=
+  unitary_ccxGate 
+
+theorem C18_unitary_itoffoli (K : Consts R) (hK : K.Valid) : IsUnitary 8 (itoffoli K) :=
+  unitary_itoffoli K hK 
+example : ∃ (K : Consts ℂ), K.Valid := ⟨K0, K0_valid⟩
+
+theorem C18_unitary_rccx (K : Consts R) (hK : K.Valid) : IsUnitary 8 (rccx K) :=
+  unitary_rccx K hK 
+example : ∃ (K : Consts ℂ), K.Valid := ⟨K0, K0_valid⟩
+
+theorem C18_unitary_rc3x (K : Consts R) (hK : K.Valid) : IsUnitary 16 (rc3x K) :=
+  unitary_rc3x K hK 
+example : ∃ (K : Consts ℂ), K.Valid := ⟨K0, K0_valid⟩
+
+theorem C18_unitary_cpiGate : IsUnitary 9 (cpiGate : M R) :=
+  unitary_cpiGate 
+
+/-- `get_inverse()` returns the gate itself and it squares to the identity -/
+theorem C18_inverse_xGate : toM 2 (xGate : M R) * toM 2 (xGate : M R) = 1 :=
+  selfinv_xGate 
+
+/-- `get_inverse()` returns the gate itself and it squares to the identity -/
+theorem C18_inverse_yGate (K : Consts R) (hK : K.Valid) : toM 2 (yGate K) * toM 2 (yGate K) = 1 :=
+  selfinv_yGate K hK 
+example : ∃ K : Consts ℂ, K.Valid := ⟨K0, K0_valid⟩
+
+/-- `get_inverse()` returns the gate itself and it squares to the identity -/
+theorem C18_inverse_zGate : toM 2 (zGate : M R) * toM 2 (zGate : M R) = 1 :=
+  selfinv_zGate 
+
+/-- `get_inverse()` returns the gate itself and it squares to the identity -/
+theorem C18_inverse_hGate (K : Consts R) (hK : K.Valid) : toM 2 (hGate K) * toM 2 (hGate K) = 1 :=
+  selfinv_hGate K hK 
+example : ∃ K : Consts ℂ, K.Valid := ⟨K0, K0_valid⟩
+
+/-- `get_inverse()` returns the gate itself and it squares to the identity -/
+theorem C18_inverse_cxGate : toM 4 (cxGate : M R) * toM 4 (cxGate : M R) = 1 :=
+  selfinv_cxGate 
+
+/-- `get_inverse()` returns the gate itself and it squares to the identity -/
+theorem C18_inverse_cyGate (K : Consts R) (hK : K.Valid) : toM 4 (cyGate K) * toM 4 (cyGate K) = 1 :=
+  selfinv_cyGate K hK 
+example : ∃ K : Consts ℂ, K.Valid := ⟨K0, K0_valid⟩
+
+/-- `get_inverse()` returns the gate itself and it squares to the identity -/
+theorem C18_inverse_czGate : toM 4 (czGate : M R) * toM 4 (czGate : M R) = 1 :=
+  selfinv_czGate 
+
+/-- `get_inverse()` returns the gate itself and it squares to the identity -/
+theorem C18_inverse_ch (K : Consts R) (hK : K.Valid) : toM 4 (ch K) * toM 4 (ch K) = 1 :=
+  selfinv_ch K hK 
+example : ∃ K : Consts ℂ, K.Valid := ⟨K0, K0_valid⟩
+
+/-- `get_inverse()` returns the gate itself and it squares to the identity -/
+theorem C18_inverse_swapGate : toM 4 (swapGate : M R) * toM 4 (swapGate : M R) = 1 :=
+  selfinv_swapGate 
+
+/-- `get_inverse()` returns the gate itself and it squares to the identity -/
+theorem C18_inverse_ccxGate : toM 8 (ccxGate : M R) * toM 8 (ccxGate : M R) = 1 :=
+  selfinv_ccxGate 
+
+/-- `get_inverse()` returns the gate itself and it squares to the identity -/
+theorem C18_inverse_ecr (K : Consts R) (hK : K.Valid) : toM 4 (ecr K) * toM 4 (ecr K) = 1 :=
+  selfinv_ecr K hK 
+example : ∃ K : Consts ℂ, K.Valid := ⟨K0, K0_valid⟩
+
+theorem C18_grad_u3_0 {S : Type} [CommRing S] (K : Consts S) (t p l : Ang S) (ε : S) (hε : ε * ε = 0) :
+    toM 2 (u3 K (t.shift K.h ε) p l) = toM 2 (u3 K t p l) + ε • toM 2 (u3_g0 K t p l) :=
+  grad_u3_0 K t p l ε hε
+example : ∃ ε : ZMod 4, ε ≠ 0 ∧ ε * ε = 0 := ⟨2, by decide, by decide⟩
+
+theorem C18_grad_u3_1 {S : Type} [CommRing S] (K : Consts S) (t p l : Ang S) (ε : S) (hε : ε * ε = 0) :
+    toM 2 (u3 K t (p.shift 1 ε) l) = toM 2 (u3 K t p l) + ε • toM 2 (u3_g1 K t p l) :=
+  grad_u3_1 K t p l ε hε
+example : ∃ ε : ZMod 4, ε ≠ 0 ∧ ε * ε = 0 := ⟨2, by decide, by decide⟩
+
+theorem C18_grad_u3_2 {S : Type} [CommRing S] (K : Consts S) (t p l : Ang S) (ε : S) (hε : ε * ε = 0) :
+    toM 2 (u3 K t p (l.shift 1 ε)) = toM 2 (u3 K t p l) + ε • toM 2 (u3_g2 K t p l) :=
+  grad_u3_2 K t p l ε hε
+example : ∃ ε : ZMod 4, ε ≠ 0 ∧ ε * ε = 0 := ⟨2, by decide, by decide⟩
+
+theorem C18_grad_u2_0 {S : Type} [CommRing S] (K : Consts S) (p l : Ang S) (ε : S) (hε : ε * ε = 0) :
+    toM 2 (u2 K (p.shift 1 ε) l) = toM 2 (u2 K p l) + ε • toM 2 (u2_g0 K p l) :=
+  grad_u2_0 K p l ε hε
+example : ∃ ε : ZMod 4, ε ≠ 0 ∧ ε * ε = 0 := ⟨2, by decide, by decide⟩
+
+theorem C18_grad_u2_1 {S : Type} [CommRing S] (K : Consts S) (p l : Ang S) (ε : S) (hε : ε * ε = 0) :
+    toM 2 (u2 K p (l.shift 1 ε)) = toM 2 (u2 K p l) + ε • toM 2 (u2_g1 K p l) :=
+  grad_u2_1 K p l ε hε
+example : ∃ ε : ZMod 4, ε ≠ 0 ∧ ε * ε = 0 := ⟨2, by decide, by decide⟩
+
+theorem C18_grad_u1_0 {S : Type} [CommRing S] (K : Consts S) (t : Ang S) (ε : S) (hε : ε * ε = 0) :
+    toM 2 (u1 K (t.shift 1 ε)) = toM 2 (u1 K t) + ε • toM 2 (u1_g0 K t) :=
+  grad_u1_0 K t ε hε
+example : ∃ ε : ZMod 4, ε ≠ 0 ∧ ε * ε = 0 := ⟨2, by decide, by decide⟩
+
+theorem C18_grad_rx_0 {S : Type} [CommRing S] (K : Consts S) (t : Ang S) (ε : S) (hε : ε * ε = 0) :
+    toM 2 (rx K (t.shift K.h ε)) = toM 2 (rx K t) + ε • toM 2 (rx_g0 K t) :=
+  grad_rx_0 K t ε hε
+example : ∃ ε : ZMod 4, ε ≠ 0 ∧ ε * ε = 0 := ⟨2, by decide, by decide⟩
+
+theorem C18_grad_ry_0 {S : Type} [CommRing S] (K : Consts S) (t : Ang S) (ε : S) (hε : ε * ε = 0) :
+    toM 2 (ry (t.shift K.h ε)) = toM 2 (ry t) + ε • toM 2 (ry_g0 K t) :=
+  grad_ry_0 K t ε hε
+example : ∃ ε : ZMod 4, ε ≠ 0 ∧ ε * ε = 0 := ⟨2, by decide, by decide⟩
+
+theorem C18_grad_rz_0 {S : Type} [CommRing S] (K : Consts S) (t : Ang S) (ε : S) (hε : ε * ε = 0) :
+    toM 2 (rz K (t.shift K.h ε)) = toM 2 (rz K t) + ε • toM 2 (rz_g0 K t) :=
+  grad_rz_0 K t ε hε
+example : ∃ ε : ZMod 4, ε ≠ 0 ∧ ε * ε = 0 := ⟨2, by decide, by decide⟩
+
+theorem C18_grad_u1q_0 {S : Type} [CommRing S] (K : Consts S) (t p : Ang S) (ε : S) (hε : ε * ε = 0) :
+    toM 2 (u1q K (t.shift K.h ε) p) = toM 2 (u1q K t p) + ε • toM 2 (u1q_g0 K t p) :=
+  grad_u1q_0 K t p ε hε
+example : ∃ ε : ZMod 4, ε ≠ 0 ∧ ε * ε = 0 := ⟨2, by decide, by decide⟩
+
+theorem C18_grad_u1q_1 {S : Type} [CommRing S] (K : Consts S) (t p : Ang S) (ε : S) (hε : ε * ε = 0) :
+    toM 2 (u1q K t (p.shift 1 ε)) = toM 2 (u1q K t p) + ε • toM 2 (u1q_g1 K t p) :=
+  grad_u1q_1 K t p ε hε
+example : ∃ ε : ZMod 4, ε ≠ 0 ∧ ε * ε = 0 := ⟨2, by decide, by decide⟩
+
+theorem C18_grad_pxz_0 {S : Type} [CommRing S] (K : Consts S) (a z b : Ang S) (ε : S) (hε : ε * ε = 0) :
+    toM 2 (pxz K (a.shift (K.pi * K.h) ε) z b) = toM 2 (pxz K a z b) + ε • toM 2 (pxz_g0 K a z b) :=
+  grad_pxz_0 K a z b ε hε
+example : ∃ ε : ZMod 4, ε ≠ 0 ∧ ε * ε = 0 := ⟨2, by decide, by decide⟩
+
+theorem C18_grad_pxz_1 {S : Type} [CommRing S] (K : Consts S) (a z b : Ang S) (ε : S) (hε : ε * ε = 0) :
+    toM 2 (pxz K a (z.shift K.pi ε) b) = toM 2 (pxz K a z b) + ε • toM 2 (pxz_g1 K a z b) :=
+  grad_pxz_1 K a z b ε hε
+example : ∃ ε : ZMod 4, ε ≠ 0 ∧ ε * ε = 0 := ⟨2, by decide, by decide⟩
+
+theorem C18_grad_pxz_2 {S : Type} [CommRing S] (K : Consts S) (a z b : Ang S) (ε : S) (hε : ε * ε = 0) :
+    toM 2 (pxz K a z (b.shift K.pi ε)) = toM 2 (pxz K a z b) + ε • toM 2 (pxz_g2 K a z b) :=
+  grad_pxz_2 K a z b ε hε
+example : ∃ ε : ZMod 4, ε ≠ 0 ∧ ε * ε = 0 := ⟨2, by decide, by decide⟩
+
+theorem C18_grad_rxx_0 {S : Type} [CommRing S] (K : Consts S) (t : Ang S) (ε : S) (hε : ε * ε = 0) :
+    toM 4 (rxx K (t.shift K.h ε)) = toM 4 (rxx K t) + ε • toM 4 (rxx_g0 K t) :=
+  grad_rxx_0 K t ε hε
+example : ∃ ε : ZMod 4, ε ≠ 0 ∧ ε * ε = 0 := ⟨2, by decide, by decide⟩
+
+theorem C18_grad_ryy_0 {S : Type} [CommRing S] (K : Consts S) (t : Ang S) (ε : S) (hε : ε * ε = 0) :
+    toM 4 (ryy K (t.shift K.h ε)) = toM 4 (ryy K t) + ε • toM 4 (ryy_g0 K t) :=
+  grad_ryy_0 K t ε hε
+example : ∃ ε : ZMod 4, ε ≠ 0 ∧ ε * ε = 0 := ⟨2, by decide, by decide⟩
+
+theorem C18_grad_rzz_0 {S : Type} [CommRing S] (K : Consts S) (t : Ang S) (ε : S) (hε : ε * ε = 0) :
+    toM 4 (rzz K (t.shift K.h ε)) = toM 4 (rzz K t) + ε • toM 4 (rzz_g0 K t) :=
+  grad_rzz_0 K t ε hε
+example : ∃ ε : ZMod 4, ε ≠ 0 ∧ ε * ε = 0 := ⟨2, by decide, by decide⟩
+
+theorem C18_grad_cp_0 {S : Type} [CommRing S] (K : Consts S) (t : Ang S) (ε : S) (hε : ε * ε = 0) :
+    toM 4 (cp K (t.shift 1 ε)) = toM 4 (cp K t) + ε • toM 4 (cp_g0 K t) :=
+  grad_cp_0 K t ε hε
+example : ∃ ε : ZMod 4, ε ≠ 0 ∧ ε * ε = 0 := ⟨2, by decide, by decide⟩
+
+theorem C18_grad_crx_0 {S : Type} [CommRing S] (K : Consts S) (t : Ang S) (ε : S) (hε : ε * ε = 0) :
+    toM 4 (crx K (t.shift K.h ε)) = toM 4 (crx K t) + ε • toM 4 (crx_g0 K t) :=
+  grad_crx_0 K t ε hε
+example : ∃ ε : ZMod 4, ε ≠ 0 ∧ ε * ε = 0 := ⟨2, by decide, by decide⟩
+
+theorem C18_grad_cry_0 {S : Type} [CommRing S] (K : Consts S) (t : Ang S) (ε : S) (hε : ε * ε = 0) :
+    toM 4 (cry (t.shift K.h ε)) = toM 4 (cry t) + ε • toM 4 (cry_g0 K t) :=
+  grad_cry_0 K t ε hε
+example : ∃ ε : ZMod 4, ε ≠ 0 ∧ ε * ε = 0 := ⟨2, by decide, by decide⟩
+
+theorem C18_grad_crz_0 {S : Type} [CommRing S] (K : Consts S) (t : Ang S) (ε : S) (hε : ε * ε = 0) :
+    toM 4 (crz K (t.shift K.h ε)) = toM 4 (crz K t) + ε • toM 4 (crz_g0 K t) :=
+  grad_crz_0 K t ε hε
+example : ∃ ε : ZMod 4, ε ≠ 0 ∧ ε * ε = 0 := ⟨2, by decide, by decide⟩
+
+theorem C18_grad_cu_0 {S : Type} [CommRing S] (K : Consts S) (t p l g : Ang S) (ε : S) (hε : ε * ε = 0) :
+    toM 4 (cu K (t.shift K.h ε) p l g) = toM 4 (cu K t p l g) + ε • toM 4 (cu_g0 K t p l g) :=
+  grad_cu_0 K t p l g ε hε
+example : ∃ ε : ZMod 4, ε ≠ 0 ∧ ε * ε = 0 := ⟨2, by decide, by decide⟩
+
+theorem C18_grad_cu_1 {S : Type} [CommRing S] (K : Consts S) (t p l g : Ang S) (ε : S) (hε : ε * ε = 0) :
+    toM 4 (cu K t (p.shift 1 ε) l g) = toM 4 (cu K t p l g) + ε • toM 4 (cu_g1 K t p l g) :=
+  grad_cu_1 K t p l g ε hε
+example : ∃ ε : ZMod 4, ε ≠ 0 ∧ ε * ε = 0 := ⟨2, by decide, by decide⟩
+
+theorem C18_grad_cu_2 {S : Type} [CommRing S] (K : Consts S) (t p l g : Ang S) (ε : S) (hε : ε * ε = 0) :
+    toM 4 (cu K t p (l.shift 1 ε) g) = toM 4 (cu K t p l g) + ε • toM 4 (cu_g2 K t p l g) :=
+  grad_cu_2 K t p l g ε hε
+example : ∃ ε : ZMod 4, ε ≠ 0 ∧ ε * ε = 0 := ⟨2, by decide, by decide⟩
+
+theorem C18_grad_cu_3 {S : Type} [CommRing S] (K : Consts S) (t p l g : Ang S) (ε : S) (hε : ε * ε = 0) :
+    toM 4 (cu K t p l (g.shift 1 ε)) = toM 4 (cu K t p l g) + ε • toM 4 (cu_g3 K t p l g) :=
+  grad_cu_3 K t p l g ε hε
+example : ∃ ε : ZMod 4, ε ≠ 0 ∧ ε * ε = 0 := ⟨2, by decide, by decide⟩
+
+theorem C18_grad_fsim_0 {S : Type} [CommRing S] (K : Consts S) (t p : Ang S) (ε : S) (hε : ε * ε = 0) :
+    toM 4 (fsim K (t.shift 1 ε) p) = toM 4 (fsim K t p) + ε • toM 4 (fsim_g0 K t) :=
+  grad_fsim_0 K t p ε hε
+example : ∃ ε : ZMod 4, ε ≠ 0 ∧ ε * ε = 0 := ⟨2, by decide, by decide⟩
+
+theorem C18_grad_fsim_1 {S : Type} [CommRing S] (K : Consts S) (t p : Ang S) (ε : S) (hε : ε * ε = 0) :
+    toM 4 (fsim K t (p.shift 1 ε)) = toM 4 (fsim K t p) + ε • toM 4 (fsim_g1 K p) :=
+  grad_fsim_1 K t p ε hε
+example : ∃ ε : ZMod 4, ε ≠ 0 ∧ ε * ε = 0 := ⟨2, by decide, by decide⟩
+
+theorem C18_grad_ccp_0 {S : Type} [CommRing S] (K : Consts S) (t : Ang S) (ε : S) (hε : ε * ε = 0) :
+    toM 8 (ccp K (t.shift 1 ε)) = toM 8 (ccp K t) + ε • toM 8 (ccp_g0 K t) :=
+  grad_ccp_0 K t ε hε
+example : ∃ ε : ZMod 4, ε ≠ 0 ∧ ε * ε = 0 := ⟨2, by decide, by decide⟩
+
+-- END GENERATED FAMILIES
+
+/-! ## Shape table -/
+
+/-- name, `num_params`, radixes, `qasm_name` and inverse class of every exported gate, as
+regenerated from the live classes on this run, are those of the model's table. -/
+theorem C18_shapes_agree : Generated.gateShapes = Gates.shapeTable := by decide +kernel
 
 end BqVerif.C18
